@@ -90,7 +90,7 @@ package common
 //@   ensures [sorted] err == nil ==> (forall a, b int :: {result0.Nodes[a], result0.Nodes[b]} 0 <= a && a < b && b < len(result0.Nodes) ==>
 //@       !lexlt(result0.Nodes[b].Custodian.PublicSpendKey, result0.Nodes[a].Custodian.PublicSpendKey))
 //@   ensures [entries] err == nil ==> (forall k, j int :: {result0.Nodes[k].Extra[j]} 0 <= k && k < len(result0.Nodes) && 0 <= j && j < custodianNodeExtraSize ==>
-//@       extra[64 + custodianNodeExtraSize * k + j] == result0.Nodes[k].Extra[j])
+//@       extra[64:len(extra)-64][custodianNodeExtraSize * k + j] == result0.Nodes[k].Extra[j]) -- byte j of entry k of the entries area extra[64:len-64]
 //@   ensures [custodian] err == nil ==> KeyAt(result0.Custodian.PublicSpendKey, extra, 0) && KeyAt(result0.Custodian.PublicViewKey, extra, 32)
 //@   ensures [approval-sig] err == nil ==> SigAt(*result0.Signature, extra, len(extra) - 64)
 //@   ensures [input-kept] forall i int :: 0 <= i && i < len(extra) ==> extra[i] == old(extra[i])
@@ -110,8 +110,11 @@ package common
 //@       nodesExtra[custodianNodeExtraSize * k + j] == nodes[k].Extra[j])
 //@   hint at "sortedExtra = append(sortedExtra, n.Extra...)" [chunk-shape] n != nil && len(n.Extra) == custodianNodeExtraSize
 //@   loop 1 invariant [length] len(sortedExtra) == custodianNodeExtraSize * (rangeindex + 1)
+//@   -- [content]: sortedExtra is the concatenation of the Extra of nodes[0..rangeindex]. Written as two conjuncts (the chunk appended last /
+//@   -- the earlier chunks) so that the two cases of its preservation proof become two separate obligations.
 //@   loop 1 invariant [content] forall k, j int :: {nodes[k].Extra[j]} 0 <= k && k <= rangeindex && 0 <= j && j < custodianNodeExtraSize ==>
-//@       sortedExtra[custodianNodeExtraSize * k + j] == nodes[k].Extra[j]
+//@       (k == rangeindex ==> sortedExtra[custodianNodeExtraSize * k + j] == nodes[k].Extra[j]) &&
+//@       (k != rangeindex ==> sortedExtra[custodianNodeExtraSize * k + j] == nodes[k].Extra[j])
 
 // ───────────── (*Transaction).validateCustodianUpdateNodes ─────────────
 // CurrentCustodian(store, ts): what the store answers for ReadCustodian(ts) during this validation (the store is not modelled).
@@ -142,11 +145,11 @@ package common
 //@ rec Price(prev *CustodianUpdateRequest, curs *CustodianUpdateRequest, n int) mathint = n <= 0 ? 0 :
 //@     Price(prev, curs, n - 1) + (IsNew(prev, curs.Nodes[n - 1]) ? 10000000000 : (IsChanged(prev, curs.Nodes[n - 1]) ? 100000000 : 0))
 
-// Describes(curs, extra): curs is a parse of extra: n = (len(extra) - 128) / 353 entries, entry k is the 353 bytes at 64 + 353 k,
+// Describes(curs, extra): curs is a parse of extra: n = (len(extra) - 128) / 353 entries, entry k is the 353 bytes at offset 353 k of the entries area extra[64:len-64],
 // and the keys of node k are the bytes of its own entry at the documented offsets.
 //@ spec Describes(curs *CustodianUpdateRequest, extra []byte) bool = curs != nil && len(curs.Nodes) * 353 == len(extra) - 128 &&
 //@     (forall k int :: {curs.Nodes[k]} 0 <= k && k < len(curs.Nodes) ==> NodeShape(curs.Nodes[k]) && NodeKeysParsed(curs.Nodes[k])) &&
-//@     (forall k, j int :: {curs.Nodes[k].Extra[j]} 0 <= k && k < len(curs.Nodes) && 0 <= j && j < 353 ==> extra[64 + 353 * k + j] == curs.Nodes[k].Extra[j])
+//@     (forall k, j int :: {curs.Nodes[k].Extra[j]} 0 <= k && k < len(curs.Nodes) && 0 <= j && j < 353 ==> extra[64:len(extra)-64][353 * k + j] == curs.Nodes[k].Extra[j])
 
 // FilterOK: every key of the filter map is the custodian address of a current node and maps to that node's payee address.
 //@ spec FilterOK(filter map[string]string, prev *CustodianUpdateRequest) bool = forall s string :: {has(filter, s)} has(filter, s) ==>
